@@ -1,6 +1,7 @@
 SPECIFICATION MCSpec
 CONSTANT Procs = {"p1", "p2", "p3"}
 CONSTANT FixF6 = TRUE
+CONSTANT FixF21 = TRUE
 INVARIANT TypeOK
 INVARIANT OneBodyAtATime
 INVARIANT NoBodyAfterDone
